@@ -8,6 +8,7 @@ import (
 	"fmt"
 	"os"
 	"path/filepath"
+	"sort"
 	"strings"
 	"sync"
 	"time"
@@ -24,8 +25,20 @@ type tcase struct {
 }
 
 func main() {
+	if len(os.Args) == 3 && os.Args[1] == "parsecheck" {
+		// child mode: does the repository's own parser reject this file? (the parser may
+		// crash or never return on garbage — that is C01's business — so the premise is
+		// established in a child process under a watchdog)
+		if parseRejects(os.Args[2]) {
+			fmt.Println("REJECTED")
+		} else {
+			fmt.Println("ACCEPTED")
+		}
+		return
+	}
 	e := lib.Init("C05", "exploration")
 	e.RunScriptWitnesses()
+	e.Extra("regression_inputs_of_repaired_defects", e.RunRegressionScripts())
 	off := func(f string) bool { return e.Quarantined(f) }
 
 	var cases []tcase
@@ -310,16 +323,20 @@ func syntaxClause(e *lib.Env, bases []string) (int, int) {
 	dir := filepath.Join(e.Scratch, "syntax")
 	_ = os.MkdirAll(dir, 0o755)
 	rejected := 0
-	// parse in-process (sequentially: the parser prints to stderr and touches globals)
 	var toRun []int
-	for i, c := range pcs {
-		path := filepath.Join(dir, fmt.Sprintf("s%d.php", i))
-		_ = os.WriteFile(path, []byte(c.src), 0o644)
-		if parseRejects(path) {
-			toRun = append(toRun, i)
-		}
-	}
 	var mu sync.Mutex
+	self, _ := os.Executable()
+	lib.ParallelMap(len(pcs), 0, func(i int) {
+		path := filepath.Join(dir, fmt.Sprintf("s%d.php", i))
+		_ = os.WriteFile(path, []byte(pcs[i].src), 0o644)
+		res := lib.RunProc(lib.ProcSpec{Argv: []string{self, "parsecheck", path}, Dir: dir, Timeout: 30 * time.Second})
+		if strings.Contains(res.Stdout, "REJECTED") {
+			mu.Lock()
+			toRun = append(toRun, i)
+			mu.Unlock()
+		}
+	})
+	sort.Ints(toRun)
 	lib.ParallelMap(len(toRun), 0, func(k int) {
 		i := toRun[k]
 		path := filepath.Join(dir, fmt.Sprintf("s%d.php", i))
